@@ -220,7 +220,39 @@ def run_history(res, ctx, root, rng, hidx, max_steps, con):
         full = gargs + ["annotate"] + args + opts + fargs
         before_bytes = (f.read_bytes(), open(str(f) + ".license", "rb").read() if os.path.exists(str(f) + ".license") else None)
         had_license_file = before_bytes[1] is not None
-        r = run_cli(full, cwd=cwd)
+        r = None
+        if had_license_file and rng.random() < 0.3:
+            # the sidecar cannot be read this once (EIO at its n-th opening): the step fails and what the sidecar said is still there
+            from ..monitors import FS
+
+            FS.install()
+            side = str(f) + ".license"
+            nth = {"n": 0, "at": rng.choice([1, 2, 2, 3])}
+
+            def eio(p, nth=nth):
+                nth["n"] += 1
+                return OSError(5, "Input/output error (injected)", p) if nth["n"] == nth["at"] else None
+
+            FS.fail_open = {side: eio}
+            FS.begin()
+            try:
+                rf = run_cli(full, cwd=cwd)
+            finally:
+                FS.end()
+                FS.fail_open = {}
+            fired = nth["n"] >= nth["at"]
+            res.cell("step:sidecar-read-fault:" + ("fired" if fired else "not-reached"))
+            if not fired:
+                r = rf
+            elif open(side, "rb").read() != before_bytes[1] or f.read_bytes() != before_bytes[0]:
+                lost = [ln for ln in before_bytes[1].decode("utf-8", "replace").splitlines() if ln.strip() and ln.encode() not in open(side, "rb").read()]
+                if lost or f.read_bytes() != before_bytes[0]:
+                    res.violation("sidecar-rewritten-after-read-error", f"step {s}: FILE.license could not be read (injected EIO), annotate exit "
+                                  f"{rf.exit_code}, and lines of it are gone: {lost[:4]}", args=args + opts)
+                    return
+                return  # rewritten with everything kept: not the model's state any more, stop this history
+        if r is None:
+            r = run_cli(full, cwd=cwd)
         res.n += 1
         sig.append("+".join(sorted(o for o in opts if o.startswith("--"))) + (":" + template if template else ""))
         if r.escaped:
